@@ -119,6 +119,7 @@ pub async fn run(seed: u64, sched: Rc<Sched>, keep_log: bool) -> (CaseResult, Ve
         *hub.mirror.lock().unwrap() = Some(Box::new(move |l| h.note(l)));
     }
     let persist_now = !deep && rng.gen_range(0..100) < 35;
+    let permissive = rng.gen_range(0..100) < 50;
     let store = Arc::new(Mutex::new(NodeStore::new(validator::BlockNumber(chain.first), persist_now)));
     hist.note(format!("store: validators={nval} first_block={first_block} first_pregenesis={first_pre} len={len} persist_now={persist_now}"));
 
@@ -210,6 +211,9 @@ pub async fn run(seed: u64, sched: Rc<Sched>, keep_log: bool) -> (CaseResult, Ve
         move || -> (oneshot::Sender<()>, tokio::task::JoinHandle<()>) {
             let mut engine = SimEngine::new_incarnation(0, chain.committee.genesis.clone(), store.clone(), hub.clone());
             engine.pregenesis = Arc::new(chain.pregenesis.clone());
+            if permissive {
+                engine.vouch_from = Some(chain.committee.genesis.first_block.0);
+            }
             let inc = engine.inc;
             let (kill, kill_recv) = oneshot::channel();
             let (slot, clock) = (slot.clone(), clock.clone());
@@ -310,11 +314,17 @@ pub async fn run(seed: u64, sched: Rc<Sched>, keep_log: bool) -> (CaseResult, Ve
     d.tick_pct = 4;
     d.tick_sizes = vec![1_000_000, 20_000_000];
     d.max_steps = 400_000;
-    let p_persist = if deep { 1 } else { rng.gen_range(5..40u32) };
+    let p_persist = if deep { rng.gen_range(0..2u32) } else { rng.gen_range(5..40u32) };
+    let p_write_error = if !deep && rng.gen_range(0..100) < 25 { 1u32 } else { 0 };
     let p_jump = if !deep && rng.gen_range(0..100) < 40 { rng.gen_range(1..4u32) } else { 0 };
     let p_prune = if !deep && rng.gen_range(0..100) < 40 { rng.gen_range(1..3u32) } else { 0 };
     let mut restarts_left = if !deep && rng.gen_range(0..100) < 50 { rng.gen_range(1..4u32) } else { 0 };
     let mut restarting: Option<u32> = None;
+    let mut restarts_left_for_errors = 2u32;
+    let mut pending_error_restart: Option<u32> = None;
+    // A storage error takes the manager's persisting task down until the node is restarted.
+    let mut error_since_restart = false;
+    let mut errors_seen = 0u64;
     let mut arng = kit::stream(seed, "store-actions");
     let mut end = DriveEnd::Done;
     let mut rounds = 0u64;
@@ -360,11 +370,34 @@ pub async fn run(seed: u64, sched: Rc<Sched>, keep_log: bool) -> (CaseResult, Ve
                 kill = k2;
                 mgr_done = d2;
                 restarting = None;
+                error_since_restart = false;
                 hist.rec(Ev::Note("manager restarted from the durable state".into()));
             } else {
                 restarting = Some(k + 1);
             }
             continue;
+        }
+        // Has an armed write error fired?  Then the node is restarted a little later.
+        let fired = hub.inner.lock().unwrap().faults.get("disk_error").copied().unwrap_or(0);
+        if fired > errors_seen {
+            errors_seen = fired;
+            error_since_restart = true;
+            if pending_error_restart.is_none() {
+                pending_error_restart = Some(arng.gen_range(5..60u32));
+            }
+        }
+        if let Some(k) = pending_error_restart {
+            if k == 0 {
+                pending_error_restart = None;
+                store.lock().unwrap().dead = true;
+                *slot.lock().unwrap() = None;
+                let _ = kill.send(());
+                kill = oneshot::channel().0;
+                restarting = Some(0);
+                hist.rec(Ev::Note("manager restarted after a storage error".into()));
+                continue;
+            }
+            pending_error_restart = Some(k - 1);
         }
         let x = arng.gen_range(0..100u32);
         if x < p_persist {
@@ -412,6 +445,13 @@ pub async fn run(seed: u64, sched: Rc<Sched>, keep_log: bool) -> (CaseResult, Ve
             kill = oneshot::channel().0;
             restarting = Some(0);
             hist.rec(Ev::Note("manager killed".into()));
+        } else if x == 98 && p_write_error > 0 && restarts_left_for_errors > 0 {
+            // A failing write: the node's storage task dies with it; the node is restarted.
+            restarts_left_for_errors -= 1;
+            let mut s = store.lock().unwrap();
+            s.fault_at = Some((s.write_attempts + 1, crate::bft::engine::WriteFault::Error));
+            drop(s);
+            hist.fault("write_error_armed");
         } else if x == 99 && arng.gen_range(0..10) == 0 {
             let mut s = store.lock().unwrap();
             s.fail_get_block = 1;
@@ -434,7 +474,13 @@ pub async fn run(seed: u64, sched: Rc<Sched>, keep_log: bool) -> (CaseResult, Ve
     let _ = d.drive(|| readers.iter().all(|h| h.is_finished()), |_| {}).await;
     // With a prompt disk every queued block must reach it (a block dropped from the cache before
     // it was persisted stalls the queueing task for good).
-    if let Some((_, mgr)) = slot.lock().unwrap().clone() {
+    // (Not owed while a storage error has taken the persisting task down.)
+    store.lock().unwrap().fault_at = None;
+    if hub.inner.lock().unwrap().faults.get("disk_error").copied().unwrap_or(0) > errors_seen {
+        error_since_restart = true;
+    }
+    let live_mgr = if error_since_restart || restarting.is_some() { None } else { slot.lock().unwrap().clone() };
+    if let Some((_, mgr)) = live_mgr {
         let st = store.clone();
         let m2 = mgr.clone();
         let _ = d.drive(|| st.lock().unwrap().disk.next() >= m2.queued().next(), |_| {}).await;
